@@ -54,4 +54,12 @@ InitOne == /\ nv = 6 /\ des = <<3,2,2,0,1,2>> /\ wt = <<1,1,3,1,1,1>> /\ sc = <<
            /\ Control0
 NextSim == GenStep \/ Next
 SimBound == nsat <= 8 * nv + 8
-=============================================================================
+\* ---- reachability witnesses (vacuity guards): each of these properties must be VIOLATED by the configuration that is
+\* supposed to exercise the action - an action that is never taken means that the invariants were never tested against it
+Reach_Split == [][~(\E c \in CSet : Split(c, Derive(active)))]_vars
+Reach_Merge == [][~(\E c \in CSet : Merge(c, Derive(active)))]_vars
+Reach_SplitBetween == [][~(\E c \in CSet : SplitBetween(c, Derive(active)))]_vars
+Reach_MarkUnsat == [][~(\E c \in CSet : MarkUnsat(c, Derive(active)))]_vars
+\* a second satisfy round that changes the active set (what the cost-stationary stop rule used to miss)
+Reach_SecondRoundChanges == [][~(pc = "endsat" /\ nsat >= 1 /\ prev # <<active, unsat>> /\ EndSat)]_vars
+=========================================================================
